@@ -226,6 +226,12 @@ class C06(Prop):
                      k[:len(k) // 2], k.swapcase()]
             for c in rng.sample(cands, 3 if len(stored) > 40 else len(cands)):
                 probes.append(c)
+        # extensions / truncations of the LONGEST key of each class (the key that fills its fixed-width field completely)
+        for cls in ([k[0] for k in keys], [a[0] for a in aliases]):
+            if cls:
+                m = max(len(k) for k in cls)
+                for k in [k for k in cls if len(k) == m][:3] + [k for k in cls if len(k) == m - 1][:1]:
+                    probes += [k, k + b"0", k + b"!", k + b".1", k + k, k[:-1], k + bytes([rng.choice(ALLPRINT)]) * rng.randint(1, 5)]
         if srt:
             probes += [srt[0], srt[-1], srt[0][:-1], srt[-1] + b"~", b"!", b"~" * 201, b"", srt[len(srt) // 2]]
             if len(srt[0]) > 0:
